@@ -7744,7 +7744,7 @@ zisofs_write_to_temp(struct archive_write *a, const void *buff, size_t s)
 	const unsigned char *b;
 	z_stream *zstrm;
 	size_t avail, csize;
-	int flush, r;
+	int flush, r, compress_block;
 
 	zstrm = &(iso9660->zisofs.stream);
 	zstrm->next_out = wb_buffptr(a);
@@ -7763,6 +7763,7 @@ zisofs_write_to_temp(struct archive_write *a, const void *buff, size_t s)
 
 		zstrm->next_in = (Bytef *)(uintptr_t)(const void *)b;
 		zstrm->avail_in = (uInt)avail;
+		compress_block = 1;
 
 		/*
 		 * Check if current data block are all zero.
@@ -7801,12 +7802,17 @@ zisofs_write_to_temp(struct archive_write *a, const void *buff, size_t s)
 				iso9660->zisofs.total_size -= diff;
 			}
 			zstrm->avail_in = 0;
+			compress_block = 0;
 		}
 
 		/*
-		 * Compress file data.
+		 * Compress file data.  At the end of a block keep calling
+		 * deflate() until it has delivered all of its output: when
+		 * the output buffer fills up it returns with the input used
+		 * up but the block not yet complete.
 		 */
-		while (zstrm->avail_in > 0) {
+		while (zstrm->avail_in > 0 ||
+		    (compress_block && flush == Z_FINISH)) {
 			csize = zstrm->total_out;
 			r = deflate(zstrm, flush);
 			switch (r) {
@@ -7828,6 +7834,8 @@ zisofs_write_to_temp(struct archive_write *a, const void *buff, size_t s)
 				    r);
 				return (ARCHIVE_FATAL);
 			}
+			if (r == Z_STREAM_END)
+				break;
 		}
 
 		if (flush == Z_FINISH) {
